@@ -224,7 +224,9 @@ func c03Guarded(v c03Verifier, cl claim, rows uint8) (err error, stuck bool) {
 	return v.call(cl), false
 }
 
-func mkProof(cl claim) u.Proof { return u.Proof{Targets: cloneU64(cl.Targets), Proof: cloneHashes(cl.Proof)} }
+func mkProof(cl claim) u.Proof {
+	return u.Proof{Targets: cloneU64(cl.Targets), Proof: cloneHashes(cl.Proof)}
+}
 
 func stumpVerifier(stump u.Stump) c03Verifier {
 	return c03Verifier{site: "Verify", call: func(cl claim) error {
